@@ -605,7 +605,9 @@ class Sample:
         for pos, cov in norm.items():
             if len(cov) == 0:
                 continue
-            coverage.setdefault(pos, {})["_"] = cov
+            # Copy: the list is extended below (out-of-range mutations count as `_`), and
+            # `norm` itself is pickled by _dump_alignments afterwards.
+            coverage.setdefault(pos, {})["_"] = list(cov)
         bounds = min(self.gene.chr_to_ref), max(self.gene.chr_to_ref)
         for (pos, mut), cov in muts.items():
             if pos not in coverage:
